@@ -17,7 +17,7 @@ from .sym import (SymInt, SymBool, SStr, SymRatio, EngineError, branch, mk, mks,
 from .objs import (Cls, Obj, Func, BoundMethod, Builtin, NativeMethod, SuperProxy, ModStub, Module,
                    PyRaise, RegexObj, MatchObj, FileObj)
 from . import strmodel, rx
-from .lists import SeqList, ArrList, SymRange
+from .lists import SeqList, ArrList, SymRange, EnumView
 
 MAX_CALL_DEPTH = 960       # CPython's default recursion limit is 1000
 
@@ -873,7 +873,7 @@ class Interp:
             return iter(it)
         if isinstance(it, SymRange):
             return it.iterate(self)
-        if isinstance(it, (SeqList, ArrList)):
+        if isinstance(it, (SeqList, ArrList, EnumView)):
             return it.iterate(self)
         if hasattr(it, "__next__"):
             return it
@@ -1189,6 +1189,8 @@ class Interp:
             raise EngineError("type(%r)" % (x,))
 
         def _enumerate(x, start=0):
+            if isinstance(x, (SeqList, ArrList)):
+                return EnumView(x, start)
             return ((start + i, v) for i, v in enumerate(self.iterate(x)))
 
         def _next(it, *default):
